@@ -41,7 +41,7 @@ def obligations(tier, seed):
     M = ["c08_env.c"]
     defs = {k: None for k in KNOWN}
     common = dict(harness="h_c08.c", units=U, models=M, stubs=STUBS, unwind=520, solver="cadical",
-                  flags=["--max-field-sensitivity-array-size", "9"], mem_gb=5)
+                  flags=["--max-field-sensitivity-array-size", "9"], mem_gb=3)
     seqs = [
         sk("popon_basic", "S_RCL;S_PACX(3);S_CH;S_TXA;S_EOC"),
         sk("rollup_basic", "S_RU2;S_TXA;S_CH;S_CR;S_TXA"),
